@@ -125,7 +125,7 @@ func init() {
 		QuickRuns: 20000, ThoroughRuns: 1500000,
 		Generate: GenFleet(&fleetProfile{prop: "C11", stores: plainKinds, roles: []string{"sketch", "sketch", "exact"}, minNodes: 1, maxNodes: 3, shareMap: true,
 			weights: []string{"tiny", "tiny", "wide", "frac"}, valueSigns: []string{"pos", "pos", "neg", "mixed", "mixed", "zeros"},
-			ops: map[string]int{"add": 4, "addw": 40, "reweight": 8, "merge": 6, "copy": 2, "clear": 2, "query": 30}, queryEvery: 30, maxOps: 120}),
+			ops: map[string]int{"add": 4, "addw": 40, "reweight": 8, "merge": 6, "copy": 2, "clear": 2, "query": 30, "chmap": 2}, queryEvery: 30, maxOps: 120}),
 		Execute:    ExecFleet,
 		NonTrivial: nonTrivialFleet(2, "query"),
 		Rule:       "seeded simulations of weighted sketches (dyadic weights, total weight from 2^-10, reached by weighted adds, merges and re-weighting); " + distinctRule + "; non-trivial = at least 2 mutations and a query",
@@ -235,7 +235,7 @@ func init() {
 		ID: "C06", Level: "exploration", World: "fleet",
 		QuickRuns: 10000, ThoroughRuns: 1000000,
 		Generate: GenFleet(&fleetProfile{prop: "C06", stores: allKinds, roles: []string{"sketch", "sketch", "exact"}, minNodes: 1, maxNodes: 4, shareMap: true,
-			weights: []string{"unit", "int", "frac"}, valueSigns: []string{"pos", "neg", "mixed", "zeros"},
+			weights: []string{"unit", "int", "frac", "fine"}, valueSigns: []string{"pos", "neg", "mixed", "zeros"},
 			ops:   map[string]int{"add": 30, "addw": 15, "burst": 6, "merge": 3, "copy": 2, "clear": 4, "reweight": 2, "send": 25, "query": 2},
 			forms: []string{"bin", "bin", "binomit"}, modes: []string{"merge", "fresh", "reuse"}, queryEvery: 0, maxOps: 120, concat: true}),
 		Execute:    ExecFleet,
@@ -248,7 +248,7 @@ func init() {
 		ID: "C07", Level: "exploration", World: "fleet",
 		QuickRuns: 10000, ThoroughRuns: 1000000,
 		Generate: GenFleet(&fleetProfile{prop: "C07", stores: allKinds, roles: []string{"sketch", "sketch", "exact"}, minNodes: 1, maxNodes: 4, shareMap: true,
-			weights: []string{"unit", "int", "frac"}, valueSigns: []string{"pos", "neg", "mixed", "zeros"},
+			weights: []string{"unit", "int", "frac", "fine"}, valueSigns: []string{"pos", "neg", "mixed", "zeros"},
 			ops:   map[string]int{"add": 30, "addw": 15, "burst": 6, "merge": 3, "clear": 3, "send": 25},
 			forms: []string{"bin", "bin", "binomit"}, modes: []string{"merge", "fresh", "reuse"}, queryEvery: 0, maxOps: 80, extra: foreignNode}),
 		Execute:    ExecFleet,
@@ -261,7 +261,7 @@ func init() {
 		ID: "C08", Level: "fault_enumeration", World: "fleet",
 		QuickRuns: 500, ThoroughRuns: 40000,
 		Generate: GenFleet(&fleetProfile{prop: "C08", stores: allKinds, roles: []string{"sketch", "sketch", "exact"}, minNodes: 1, maxNodes: 3, shareMap: true, intruder: true,
-			weights: []string{"unit", "int", "frac"}, valueSigns: []string{"pos", "neg", "mixed", "zeros"},
+			weights: []string{"unit", "int", "frac", "fine"}, valueSigns: []string{"pos", "neg", "mixed", "zeros"},
 			ops:   map[string]int{"add": 30, "addw": 15, "burst": 6, "merge": 3, "clear": 2, "send": 20},
 			forms: []string{"bin", "bin", "binomit"}, modes: []string{"merge", "fresh"}, queryEvery: 0, maxOps: 40, afterSend: sweepAfterSend, extra: diskActor}),
 		Execute: ExecFleet,
@@ -499,6 +499,12 @@ func weightlessAdder(g *fleetGen) {
 		v := []float64{math.NaN(), math.Inf(1), -maxv * 2, 1, -5, g.value(n)}[r.Intn(6)]
 		w := []float64{0, 0, 1, 2, -1}[r.Intn(5)]
 		g.emit(engine.Event{Ev: "badadd", N: n.id, V: engine.F64(v), W: engine.F64(w)})
+		if o := g.otherMapping(n); o != nil && r.Pct(50) {
+			g.emit(engine.Event{Ev: "badmerge", N: n.id, M: o.id})
+			if r.Pct(50) {
+				g.emit(engine.Event{Ev: "badmerge", N: o.id, M: n.id})
+			}
+		}
 		g.q.After(int64(r.Range(1, 1500)), act)
 	}
 	g.q.After(int64(r.Range(0, 800)), act)
@@ -521,7 +527,7 @@ func init() {
 	engine.Register(&engine.Prop{
 		ID: "C10", Level: "exploration", World: "fleet",
 		QuickRuns: 10000, ThoroughRuns: 1000000,
-		Generate: GenFleet(&fleetProfile{prop: "C10", stores: allKinds, roles: []string{"exact", "exact", "exact", "sketch"}, minNodes: 1, maxNodes: 4, shareMap: true,
+		Generate: GenFleet(&fleetProfile{prop: "C10", stores: allKinds, roles: []string{"exact", "exact", "exact", "sketch"}, minNodes: 1, maxNodes: 4, shareMap: true, intruder: true,
 			weights: []string{"unit", "int", "frac", "wide"}, valueSigns: []string{"pos", "neg", "mixed", "zeros"}, moderate: true,
 			ops:   map[string]int{"add": 30, "addw": 20, "burst": 4, "merge": 10, "copy": 4, "clear": 4, "reweight": 5, "send": 10, "query": 6, "chmap": 5},
 			forms: []string{"bin", "binomit"}, modes: []string{"merge", "fresh", "reuse"}, queryEvery: 5, maxOps: 100, extra: weightlessAdder}),
@@ -634,8 +640,30 @@ func diskActor(g *fleetGen) {
 // confusedSender is the C15 actor that offers a plain encoding to an exact-summary sketch (the
 // decode is refused half-way when that sketch is still empty, silently accepted otherwise);
 // the owner then clears the sketch and re-uses it.
+// decayer: an owner that ages a sketch away (every weight underflows to 0),
+// then clears and re-uses it.
+func decayer(g *fleetGen) {
+	r := g.r
+	if !r.Pct(35) {
+		return
+	}
+	n := g.nodes[r.Intn(len(g.nodes))]
+	g.q.After(int64(r.Range(0, 6000)), func() {
+		g.emit(engine.Event{Ev: "decay", N: n.id})
+		g.emit(engine.Event{Ev: "clear", N: n.id})
+		n.n = 0
+		for k := r.Range(1, 6); k > 0; k-- {
+			g.emit(engine.Event{Ev: "add", N: n.id, V: engine.F64(g.value(n))})
+			n.n++
+		}
+	})
+}
+
 func confusedSender(g *fleetGen) {
 	r := g.r
+	if g.prof.prop == "C15" {
+		decayer(g)
+	}
 	var exact, plain *fgNode
 	for _, n := range g.nodes {
 		if n.spec.Role == "exact" && exact == nil {
